@@ -33,6 +33,7 @@ RULE += " Added after the seeded rounds: " + 'Stage names may repeat; a second r
 RULE += ' 1/40 of the cases run the cascade 1001 more times before the comparison run (bound of the result history).'
 RULE += ' Exceptions raised by gates, processors and handlers may carry no message at all or a falsy one.'
 RULE += " Round 7: `other` = a second cascade (opposite or same failure mode, or the MAPK preset; idle or run once) constructed in the same process after the pipeline under test and before its run."
+RULE += " Round 8: `late_gate` - stages are constructed without checkpoint and error handler, which are then assigned to the stage's public fields."
 EXHAUSTIVE_NOTE = {"quick": "all pipelines of 1..2 stages over 48 stage behaviours x halt on/off (2*(48+2304) = 4704), complete",
                    "thorough": "all pipelines of 1..3 stages over 48 stage behaviours x halt on/off (2*(48+2304+110592) = 225888), complete"}
 
@@ -49,7 +50,7 @@ _json = st.recursive(st.one_of(st.none(), st.booleans(), st.integers(-5, 5), st.
 
 
 def strategy(tier):
-    plain = st.fixed_dictionaries({"halt": st.booleans(), "max_amp": st.sampled_from([10, 100]), "input": st.integers(0, 3), "exc": st.integers(0, 15), "names": st.sampled_from(["unique", "unique", "same", "pairs"]), "reruns": st.sampled_from([0] * 39 + [1001]), "build": st.sampled_from(["append", "append", "insert-front", "decoy"]),
+    plain = st.fixed_dictionaries({"halt": st.booleans(), "max_amp": st.sampled_from([10, 100]), "input": st.integers(0, 3), "exc": st.integers(0, 15), "names": st.sampled_from(["unique", "unique", "same", "pairs"]), "reruns": st.sampled_from([0] * 39 + [1001]), "build": st.sampled_from(["append", "append", "insert-front", "decoy"]), "late_gate": st.sampled_from([False, False, True]),
                                    "other": st.sampled_from([None] * 6 + [["opposite", "idle"], ["opposite", "run"], ["opposite", "reject"], ["same", "run"], ["mapk", "idle"], ["mapk", "run"]]),
                                    "stages": st.lists(_stage, min_size=1, max_size=5)})
     mapk = st.fixed_dictionaries({"mapk": st.just(True), "halt": st.booleans(), "max_amp": st.sampled_from([10, 100, 1000, 5000]),
@@ -87,6 +88,11 @@ def enumerate_cases(tier):
         yield {"halt": True, "max_amp": 10, "input": 0, "stages": [one], "parallel": True}
         for cp2 in CPS:
             yield {"halt": False, "max_amp": 10, "input": 1, "stages": [one, {"cp": cp2, "proc": "pass", "err": "none", "required": True, "amp": 2}], "parallel": True}
+    for cp, proc, err, req in itertools.product(CPS, ["pass", "raise"], ["none", "pass"], [True, False]):
+        one = {"cp": cp, "proc": proc, "err": err, "required": req, "amp": 2}
+        for halt in (True, False):
+            yield {"halt": halt, "max_amp": 10, "input": 0, "late_gate": True, "stages": [one, {"cp": "pass", "proc": "pass", "err": "none", "required": True, "amp": 2}]}
+            yield {"halt": halt, "max_amp": 10, "input": 0, "late_gate": True, "parallel": True, "stages": [one]}
     for cp, proc, req in itertools.product(CPS, ["pass", "raise"], [True, False]):
         one = {"cp": cp, "proc": proc, "err": "none", "required": req, "amp": 2}
         for halt in (True, False):
@@ -173,6 +179,12 @@ def _build(case, log):
         gate = None if spec["cp"] == "none" else cp
         if gate is not None and spec.get("gate_object"):
             gate = _GateObject(cp)          # a callable *object* that happens to be falsy (an empty allow-list with __call__ and __len__)
+        if case.get("late_gate"):
+            # the stage is built without its gate and handler; both are assigned to the public fields afterwards ("a stage that has a checkpoint ...")
+            stg = CascadeStage(name=_stage_name(case, i), processor=proc, amplification=spec["amp"], required=spec["required"])
+            stg.checkpoint = gate
+            stg.on_error = None if spec["err"] == "none" else err
+            return stg
         return CascadeStage(name=_stage_name(case, i), processor=proc, amplification=spec["amp"],
                             checkpoint=gate,
                             on_error=None if spec["err"] == "none" else err, required=spec["required"])
